@@ -41,11 +41,9 @@ impl<T: RealNumber> DenseMatrix<T> {
             forall|i: int, j: int| 0 <= j <= i < self.ncols ==> cov.at(j, i) == cov.at(i, j), //# cov-is-symmetric
 //@enter
         proof { T::ops_total(); }
-//@before for k in 0..m {
         let ghost mus = self.mu_seq();
-        proof { assert(mu@ =~= mus); }
 //@loop 1
-            invariant self.wf(), m == self.nrows, n == self.ncols, mu@ == mus, mus.len() == n, cov.wf(), cov.nrows == n, cov.ncols == n,
+            invariant self.wf(), m == self.nrows, n == self.ncols, mu@ =~= mus, mus.len() == n, cov.wf(), cov.nrows == n, cov.ncols == n,
                 forall|i2: int, j2: int| 0 <= j2 <= i2 < n ==> cov.at(i2, j2) == self.cross(mus, i2, j2, k as int),
                 forall|i2: int, j2: int| 0 <= i2 < j2 < n ==> cov.at(i2, j2) == T::zero_spec(),
 //@loop 2
@@ -60,7 +58,7 @@ impl<T: RealNumber> DenseMatrix<T> {
                         forall|j2: int| 0 <= j2 <= i && j2 < j ==> cov.at(i as int, j2) == self.cross(mus, i as int, j2, k as int + 1),
                         forall|j2: int| 0 <= j2 <= i && j2 >= j ==> cov.at(i as int, j2) == self.cross(mus, i as int, j2, k as int),
                         forall|i2: int, j2: int| 0 <= i2 < j2 < n ==> cov.at(i2, j2) == T::zero_spec(),
-//@before cov.add_element_mut(i, j, (self.get(k, i) - mu[i]) * (self.get(k, j) - mu[j]));
+//@loopbody 3
                     proof { T::ops_total(); }
 //@loop 4
             invariant self.wf(), m == self.nrows, n == self.ncols, cov.wf(), cov.nrows == n, cov.ncols == n,
